@@ -13,7 +13,7 @@ What is transcribed, statement by statement:
 * `cssutils/css/cssstyledeclaration.py` `__nnames` (:214-223), `getProperty` (:432-454), `getProperties`
   (:393-429), `_getValid` (:732-734), `_getValidating` (:708-717);
 * `cssutils/css/cssstylerule.py` `_getValid` (:272-274); `cssutils/css/cssfontfacerule.py` `_getValid` (:179-188);
-  `cssutils/css/cssstylesheet.py` `_getValid` (:924-930);
+  `cssutils/css/cssstylesheet.py` `_getValid` (:928-934);
 * `cssutils/serialize.py` `_valid` (:392-394) and the `validOnly` guard of `do_Property` (:980).
 
 A property enters the model as what `validate` reads of it: normalised name, `Property.value` (the comment-free
@@ -307,7 +307,7 @@ inductive Rule where
   | other
 deriving Repr, Inhabited
 
-/-- `rule.valid` where the attribute exists (`hasattr(rule, 'valid')`, cssstylesheet.py:928):
+/-- `rule.valid` where the attribute exists (`hasattr(rule, 'valid')`, cssstylesheet.py:932):
 `CSSStyleRule.valid` = `self.style.valid`; `CSSFontFaceRule.valid` -/
 def ruleValid (acc : π → Str → Option Bool) (reg : Registry π) (ff : Str) : Rule → Option (Except Err Bool)
   | .style b => some (declValid acc reg ff false b)
@@ -316,7 +316,7 @@ def ruleValid (acc : π → Str → Option Bool) (reg : Registry π) (ff : Str) 
   | .page _ _ => none
   | .other => none
 
-/-- `CSSStyleSheet.valid` (cssstylesheet.py:924-930) -/
+/-- `CSSStyleSheet.valid` (cssstylesheet.py:928-934) -/
 def sheetValid (acc : π → Str → Option Bool) (reg : Registry π) (ff : Str) (rules : List Rule) : Except Err Bool :=
   allM (fun r => match ruleValid acc reg ff r with
     | some v => v
